@@ -20,12 +20,16 @@ Est(g1, t1, s1, g2, t2, used) == [k \in 1..Len(RefPoses) |-> IF k <= used THEN S
 
 Init == /\ pc = "call" /\ o = [out |-> "none"]
         /\ \E g1 \in Rots \cup {RID}, g2 \in {3, 17}, t1 \in {<<0, 0, 0>>, <<4, -8, 12>>}, s1 \in {1, 2, 4}, mode \in {"rigid", "sim", "scale", "origin"},
-              n \in {-1, 3, 4}, far \in BOOLEAN :      \* far: the harness places both trajectories at coordinates around 2^20
+              n \in {-1, 3, 4}, far \in BOOLEAN, swap \in BOOLEAN :      \* far: the harness places both trajectories at coordinates around 2^20
+              \* swap (origin mode only): the roles are exchanged - the ESTIMATE starts at the identity pose, the reference does not
+              /\ (swap => mode = "origin" /\ n = -1 /\ ~far)
               /\ (mode = "rigid" => s1 = 1)
               /\ (far => g1 = RID /\ s1 = 1 /\ n = -1 /\ mode \in {"rigid", "sim"} /\ t1 # <<0, 0, 0>>)
-              /\ c = [mode |-> mode, n |-> n, ref |-> RefPoses, s0 |-> s1,
+              /\ c = [mode |-> mode, n |-> n, s0 |-> s1,
                       used |-> IF n = -1 \/ mode = "origin" THEN Len(RefPoses) ELSE n,
-                      est |-> Est(g1, t1, s1, g2, <<-4, 0, 8>>, IF n = -1 \/ mode = "origin" THEN Len(RefPoses) ELSE n),
+                      ref |-> IF swap THEN Est(g1, t1, s1, g2, <<-4, 0, 8>>, Len(RefPoses)) ELSE RefPoses,
+                      est |-> IF swap THEN RefPoses
+                              ELSE Est(g1, t1, s1, g2, <<-4, 0, 8>>, IF n = -1 \/ mode = "origin" THEN Len(RefPoses) ELSE n),
                       g1 |-> g1, t1 |-> t1, far |-> far]
 
 \* inverse of (g, t, s):  p -> (1/s) g^-1 (p - t);  translation in 1/64 units
